@@ -241,7 +241,7 @@ mod __verif_kani {
             }
         };
     }
-    //@ kind=B props=C04 bound=2_words,len=100,rate=3 fn=WithCsPoppy::{build_with_rate,select1} : CS-Poppy select at a sample rate that is not a power of two: select1(k) == position of the k-th open among the first len bits for every k
+    //@ kind=B props=C04 tier=thorough bound=2_words,len=100,rate=3 fn=WithCsPoppy::{build_with_rate,select1} : CS-Poppy select at a sample rate that is not a power of two: select1(k) == position of the k-th open among the first len bits for every k
     cspoppy_case!(c04_cspoppy_select_rate3, 3);
     //@ kind=B props=C04 tier=thorough bound=2_words,len=100,rate=256 fn=WithCsPoppy::{build_with_rate,select1} : default rate
     cspoppy_case!(c04_cspoppy_select_rate256, 256);
